@@ -118,6 +118,17 @@ def well_formed_cases(r: Run, keys):
         if max_abs(ts) > I32MAX // 4:
             continue
         out.append(render(ts))
+    # the SAME group body more than once at one level, with different multipliers (a parser that remembers a parsed body
+    # must not remember what it did to it): flat and nested bodies, adjacent and separated by element terms
+    for _ in range(120 if r.tier == "thorough" else 40):
+        body = render(g.terms(rng.choice([1, 2, 3]), rng.choice([0, 1, 2])))
+        if not body or len(body) > 40:
+            continue
+        a, b, c = rng.choice([2, 3, 4, 7]), rng.choice(["", 2, 5]), rng.choice([2, 3])
+        cand = [f"({body}){a}({body}){b}", f"(({body})2O){a}(({body})2O){b}", f"({body}){a}C({body}){b}H", f"(({body})){a}(({body}))",
+                f"(({body}){c}){a}(({body}){c}){b}(({body}){c})"]
+        out += [x for x in cand if len(x) < 200]
+    out += ["((H))2((H))", "((CH2)2O)4((CH2)2O)2", "(C(H2)2)3(C(H2)2)3(C(H2)2)", "((C[13]H3)2N)3((C[13]H3)2N)2"]
     # every per-key total fits i32, but the totals of DIFFERENT keys (of one group, of the whole formula) add up past it
     out += ["(H2O)1000000000", "C(H2O)1000000000N", "((C[13]H3)1000N)500000", "(C2H2)1000000000", "H2147483647O2147483647",
             "(H)2147483647(O)2147483647", "(HO)2147483647", "(C[13]C)2147483647", "((HO)2)1073741823", "(NaCl)2147483647H2147483647",
@@ -208,6 +219,9 @@ def malformed_cases(r: Run, wf):
             # count is flushed: mid-string and at the end of input)
             # what may follow a completed term is an upper-case letter or '(' — at each of the four sites (after a count,
             # after a bracket, after a group, after a group count); the table DOES hold a lower-case key, e*
+            # symbols that equal a table key only after case folding (E* -> e*, CL, NA, hE) or after Unicode case mapping
+            # (U+212A KELVIN SIGN lower-cases to k: B + U+212A -> Bk; U+017F LONG S upper-cases to S)
+            "E*", "C2E*", "(E*)3", "CL", "NA", "NACL", "Cl2NA", "hE", "B\u212a", "H2B\u212aO", "\u212a", "C\u017f", "(B\u212a)2",
             "C2e*", "C[13]e*", "(C)e*", "(C)2e*", "C2h", "C[13]h", "(C)h", "(C)2h", "(C)é", "C2é", "(C)2é", "C[13]é",
             "C[99999]2", "C[99999]2H", "C[65536]1O2", "C[²]2", "C[²]2O", "(C[99999]2)3", "C[٣]4", "O2C[70000]3",
             "(" * 3000 + "C", "(" * 1500 + ")" * 1500, "C" * 5000, "(C)" * 1000, "((" * 800 + "C" + "))" * 800 + "x"]
